@@ -29,11 +29,26 @@ impl AsyncRead for Stdin {
             cx.waker().wake_by_ref();
             return Poll::Pending;
         }
+        let failed = simkit::with(|s| match s.stdin.as_ref() {
+            Some(st) if st.fail_at.map(|f| st.pos >= f).unwrap_or(false) => {
+                s.event("stdin-read-error", st.pos as u64, 0);
+                s.count("fault:SourceReadError");
+                true
+            }
+            _ => false,
+        });
+        if failed {
+            return Poll::Ready(Err(io::Error::from_raw_os_error(5)));
+        }
         simkit::with(|s| {
             let rem_buf = buf.remaining();
             let (avail, pos) = match s.stdin.as_ref() {
                 Some(st) => (st.data.len() - st.pos, st.pos),
                 None => (0, 0),
+            };
+            let avail = match s.stdin.as_ref().and_then(|st| st.fail_at) {
+                Some(f) => avail.min(f.saturating_sub(pos)),
+                None => avail,
             };
             let max = avail.min(rem_buf);
             if max == 0 {
